@@ -4,6 +4,7 @@ import (
 	"fmt"
 	"strings"
 
+	"verif/internal/gen"
 	"verif/internal/h"
 	"verif/internal/model"
 )
@@ -250,6 +251,22 @@ func runC01(c *h.Ctx) {
 	n := c.PerShard(c.N(4000000, 40000000))
 	for i := 0; i < n; i++ {
 		checkC01(c, eg.Next())
+		if i%24 == 7 {
+			// inside a filter: a nested filter or subscript followed by steps
+			// that mention @ again, on documents whose levels carry the same keys
+			oc := outerCurrentChain(eg.G)
+			root := &gen.N{K: gen.KRoot, Next: &gen.N{K: gen.KFilter, A: &gen.N{K: gen.KUn, S: "exists", A: oc}}}
+			if eg.R.IntN(3) == 0 {
+				root = &gen.N{K: gen.KRoot, Next: &gen.N{K: gen.KKey, S: "a", Next: &gen.N{K: gen.KAnyArray, Next: root.Next}}}
+			}
+			txt := gen.Spell(&gen.Path{Lax: eg.R.IntN(2) == 0, Root: root}, nil)
+			ec, err := CaseFrom(h.Case{Path: txt, Doc: outerCurrentDoc(eg.R, eg.G.C.Keys), UseNum: eg.R.IntN(2) == 0, Vars: stdVars, Silent: eg.R.IntN(4) == 0})
+			if err != nil {
+				eg.Bad++
+				continue
+			}
+			checkC01(c, ec)
+		}
 	}
 	// maintainer-written paths harvested from the library's tests and README x generated documents
 	nh := c.PerShard(c.N(200000, 2000000))
